@@ -180,6 +180,12 @@ asn1f_lookup_symbol_impl(arg_t *arg, asn1p_expr_t *rhs_pspecs, const asn1p_ref_t
 	char *modulename;
 	char *identifier;
 
+    if(!ref) {
+        /* E.g., a COMPONENTS OF clause which could not be resolved */
+        errno = ESRCH;
+        return NULL;
+    }
+
     if(ref->module && arg->mod != ref->module) {
         return WITH_MODULE(
             ref->module,
